@@ -45,6 +45,12 @@ def amount(rng, bits, limit):
     if c == 0:
         a = rng.choice([2**8 - 1, 2**8, 2**16 - 1, 2**16, 2**31, 2**32 - 1, 2**32, 2**63 - 1, 2**63, 2**64 - 1,
                         2**64 - 64, rng.getrandbits(64), rng.getrandbits(32), 127, 128, 255, 256])
+    elif c == 1:
+        # whole turns plus a remainder (rotations reduce mod BITS; the limb split is amount / 64), any magnitude
+        q = rng.choice([1, 2, 3, 2**8, 2**16, 2**32 // max(bits, 1), 2**32 // max(bits, 1) + 1, rng.getrandbits(40), rng.getrandbits(56)])
+        a = min(q * max(bits, 1) + rng.choice([0, 1, max(bits - 1, 0), rng.randrange(max(bits, 1))]), 2**64 - 1)
+    elif c == 2:
+        a = rng.choice([2**32, 2**32 + 1, 2**33, 2**40, 2**48 + 63, 2**63 + 64]) + rng.randrange(max(bits, 1))
     else:
         a = rng.choice(amounts(rng, bits))
     if a > limit:
